@@ -1,6 +1,7 @@
 /*@UNIT
 {
   "property": "C08",
+  "properties": ["C07"],
   "unit": "parse_server_hello_extensions",
   "function": "parseServerHelloExtensions",
   "source": "matrixssl/extDecode.c",
@@ -37,8 +38,37 @@ static unsigned char *g_cur;
 
 int32 memcmpct(const void *s1, const void *s2, size_t len) { return memcmp(s1, s2, len) != 0; }
 
+/* C07  "the server only responds with an extension the client requested" (RFC 5246 7.4.1.4: unsupported_extension
+ * otherwise).  (Not demanded: "each at most once" - status_request and
+ * elliptic_curves are accepted twice, which RFC 5246 forbids but C07 does not speak about.)  The request flags are the ones matrixSslEncodeClientHello set when it wrote
+ * the extension; g_ext0 is their value on entry. */
+static __typeof__(g_ssl.extFlags) g_ext0;
+#define T0 ((unsigned) ((g_in.buf[2] << 8) | g_in.buf[3]))
+#define L0 ((unsigned) ((g_in.buf[4] << 8) | g_in.buf[5]))
+#define T1 ((unsigned) ((g_in.buf[6 + L0] << 8) | g_in.buf[7 + L0]))
+#define HAS_FIRST  (g_in.len > 2)
+#define HAS_SECOND (L0 <= 2 && g_in.len > 6 + L0)
+static int vr_requested(unsigned t)
+{
+    switch (t)
+    {
+    case EXT_SNI: return g_ext0.req_sni;
+    case EXT_MAX_FRAGMENT_LEN: return g_ext0.req_max_fragment_len;
+    case EXT_TRUNCATED_HMAC: return g_ext0.req_truncated_hmac;
+    case EXT_EXTENDED_MASTER_SECRET: return g_ext0.req_extended_master_secret;
+    case EXT_ELLIPTIC_CURVE: return g_ext0.req_elliptic_curve;
+    case EXT_ELLIPTIC_POINTS: return g_ext0.req_elliptic_points;
+    case EXT_ALPN: return g_ext0.req_alpn;
+    case EXT_SESSION_TICKET: return g_ext0.req_session_ticket;
+    case EXT_RENEGOTIATION_INFO: return g_ext0.req_renegotiation_info;
+    case EXT_STATUS_REQUEST: return g_ext0.req_status_request;
+    }
+    return 0;      /* everything else was not sent by this client (no extension callback in this unit) */
+}
 #define OK (RET >= 0)
 #define POSTS(P) \
+    P(C07_accepted_first_extension_was_requested,  IMPLIES(OK && HAS_FIRST, vr_requested(T0))) \
+    P(C07_accepted_second_extension_was_requested, IMPLIES(OK && HAS_FIRST && HAS_SECOND, vr_requested(T1))) \
     P(verdict_is_documented,           OK || RET == MATRIXSSL_ERROR) \
     P(refusal_carries_an_alert,        IMPLIES(!OK, g_ssl.err != SSL_ALERT_NONE)) \
     P(acceptance_has_no_pending_alert, IMPLIES(OK, g_ssl.err == SSL_ALERT_NONE))
@@ -72,6 +102,7 @@ HARNESS_BEGIN
     g_ssl.sid = in.hasSid ? &g_sid : NULL;
     for (i = 0; i < BUFN; i++) { g_store[PRE + i] = (i >= (unsigned) (BUFN - in.len)) ? in.buf[i - (BUFN - in.len)] : 0; }
     g_cur = g_store + PRE + (BUFN - in.len);
+    g_ext0 = g_ssl.extFlags;
     vr_ret = parseServerHelloExtensions(&g_ssl, in.hsLen, g_cur - in.extDataBack, &g_cur, in.len);
     POSTS(NATIVE_CHECK)
 #ifdef CANARY
